@@ -32,10 +32,20 @@ import (
 	"time"
 )
 
-const (
-	repoDir  = "/repo"
-	verifDir = "/verif"
-)
+const repoDir = "/repo"
+
+// verifDir is the checkout of the verification machinery the command runs
+// in: the working directory when it holds go.mod of module verifsim (so that
+// a background snapshot uses its own engines and writes its own evidence),
+// /verif otherwise.
+var verifDir = func() string {
+	if wd, err := os.Getwd(); err == nil {
+		if b, err := os.ReadFile(filepath.Join(wd, "go.mod")); err == nil && strings.HasPrefix(string(b), "module verifsim") {
+			return wd
+		}
+	}
+	return "/verif"
+}()
 
 // phase is one engine run contributing to a property's verdict.
 type phase struct {
